@@ -214,6 +214,7 @@ class _ProbeMarketMixin:
                  "stamped": order.placed_at is not None or order.order_id is not None,
                  "mkt_ok": order.market_id == self.market_id})
         log = super()._add_order(order)
+        self.__dict__.setdefault("_verif_orders", {})[order.order_id] = order
         REC.add("ret.add", self.market_id, REC.ref_of(order), log)
         return log
 
@@ -227,7 +228,17 @@ class _ProbeMarketMixin:
     def _execution(self):
         REC.add("call.exec", self.market_id, self.is_running)
         logs = super()._execution()
-        REC.add("ret.exec", self.market_id, list(logs), self.is_running)
+        known = self.__dict__.get("_verif_orders", {})
+
+        def fields(o):
+            return (o.order_id, o.is_buy, o.price, o.placed_at, o.volume)
+        filled = {}
+        for l in logs:
+            for oid in (l.buy_order_id, l.sell_order_id):
+                if oid in known:
+                    filled[oid] = fields(known[oid])
+        resting = [fields(o) for o in list(self.buy_order_book.priority_queue) + list(self.sell_order_book.priority_queue)]
+        REC.add("ret.exec", self.market_id, list(logs), self.is_running, resting, filled)
         return logs
 
     def _update_time(self, next_fundamental_price):
